@@ -8,6 +8,8 @@ from ..store import interior_point, _is_single_atom
 from ..values import RaisedInAnalysed, Unsupported
 
 _cache = {}
+from ..regions import CASE_CACHES as _CC
+_CC.append(_cache)
 
 
 def entry_summary(S, e):
